@@ -10,10 +10,10 @@ def run(cm, target, rel, old, new, timeout=10000):
     importlib.import_module(cm)
     d = tempfile.mkdtemp(prefix="pyvc-mut-")
     try:
-        shutil.copytree("/repo/myst_parser", os.path.join(d, "myst_parser"))
+        shutil.copytree(os.path.join(os.environ.get("PYVC_REPO", "/repo"), "myst_parser"), os.path.join(d, "myst_parser"))
         p = os.path.join(d, rel)
         s = open(p).read()
-        assert s.count(old) >= 1, "pattern not found"
+        assert s.count(old) == 1, f"pattern must occur exactly once (found {s.count(old)} times)"
         open(p, "w").write(s.replace(old, new, 1))
         loader.clear_cache()
         res = {}
